@@ -286,7 +286,9 @@ Qed.
    i.e. the theorems below without the restriction to a family F.
 
    PROVED (the _partial theorems below): the same statements for every run all of whose
-   configurations lie in a family F whose quorums pairwise intersect ([cxreachableF F]), and
+   COMMITTED configurations — those of the prefixes of a node's log up to its commit index, the
+   only ones a node ever decides with; configuration changes that are appended but never
+   committed do not count — lie in a family F whose quorums pairwise intersect ([cxreachableF F]), and
    (C15_conf_step_quorums_intersect) a configuration together with its successor under ONE
    change — add a voter, remove a voter, enter a joint configuration, leave it — is such a
    family.  So each single step of a membership change, taken alone, is proved safe, for any
@@ -464,6 +466,21 @@ Theorem C15_cc_config_one_step_behind_partial : forall F boot page1, inter_famil
                    c_out (cfg_of boot (firstn j (n_log (fst (cx_nodes x y))))))].
 Proof. intros F boot page1 HF Hb x Hx y j Hj. exact (node_cfg_one_step_behind F HF boot Hb page1 x Hx y j Hj). Qed.
 Print Assumptions C15_cc_config_one_step_behind_partial.
+
+(* inside the envelope all deciding configurations lie on ONE chain: the configuration of a node
+   whose commit index is not larger is the configuration of a prefix of the other node's committed
+   log (from state-machine safety) *)
+Theorem C15_cc_configs_on_one_chain_partial : forall F boot page1, inter_family F ->
+  forall x, cxreachableF F boot page1 x ->
+  forall a b, n_commit (fst (cx_nodes x a)) <= n_commit (fst (cx_nodes x b)) ->
+    node_cfg boot (fst (cx_nodes x a))
+    = cfg_of boot (firstn (n_commit (fst (cx_nodes x a))) (n_log (fst (cx_nodes x b)))).
+Proof.
+  intros F boot page1 HF x Hx a b Hab. unfold node_cfg. f_equal.
+  destruct (cc_state_machine_safety F HF boot page1 x Hx a b (n_commit (fst (cx_nodes x a))) (le_n _) Hab) as (_ & _ & E).
+  exact E.
+Qed.
+Print Assumptions C15_cc_configs_on_one_chain_partial.
 
 (* WHAT REMAINS for the full statements (no envelope).  Everything above is proved for the
    invariant Inv F of Raft/RaftInv.v, whose quorum records are "a quorum of SOME configuration of
